@@ -182,6 +182,17 @@ func runClientScenario(t *testing.T, sc *cliScenario, pickFn func(int) int) *cli
 				return "cbres", nil
 			}
 		}
+		// the Logger is user code: park in it whenever the client's mutex is free (see srvRun.logPark)
+		opts.Logger = func(text string) {
+			cli := r.cli
+			if cli == nil {
+				return
+			}
+			if mu := mutexOf(cli); mu != nil && mu.TryLock() {
+				mu.Unlock()
+				r.sched.hook("user.log", firstWords(text, 3), nil)
+			}
+		}
 		r.cli = jrpc2.NewClient(r.cch, opts)
 		nextOp := 0
 		steps := 0
